@@ -19,6 +19,12 @@ type SliceOpt struct {
 	ThroughFreeVars bool
 	// CallArgs: the result of a call depends on its arguments and receiver.
 	CallArgs bool
+	// NoAddrCallArgs: do not treat "address of a local passed to a call" as making
+	// the local depend on the call's other arguments.
+	NoAddrCallArgs bool
+	// PhiControl: a phi additionally depends on the branch conditions that select
+	// between its incoming edges (control dependence of short-circuit && / ||).
+	PhiControl bool
 	// IntoCallees: additionally descend into static first-party callees' returned
 	// values (depth-limited).
 	CalleeDepth int
@@ -52,6 +58,22 @@ func (s *Slice) visit(v ssa.Value, opt SliceOpt, depth int) {
 	case *ssa.Phi:
 		for _, e := range x.Edges {
 			s.visit(e, opt, depth)
+		}
+		if opt.PhiControl {
+			// control dependence of a merge (e.g. the phi of `a && b`): the branch
+			// conditions between the merge block's dominator and its predecessors
+			b := x.Block()
+			stop := b.Idom()
+			for _, pr := range b.Preds {
+				for d := pr; d != nil; d = d.Idom() {
+					if ifi, ok := d.Instrs[len(d.Instrs)-1].(*ssa.If); ok {
+						s.visit(ifi.Cond, opt, depth)
+					}
+					if d == stop {
+						break
+					}
+				}
+			}
 		}
 	case *ssa.UnOp:
 		s.visit(x.X, opt, depth)
@@ -100,6 +122,7 @@ func (s *Slice) visit(v ssa.Value, opt SliceOpt, depth int) {
 		}
 	case *ssa.MakeSlice:
 		s.visit(x.Len, opt, depth)
+		s.allocStores(x, opt, depth, map[ssa.Value]bool{})
 	case *ssa.Alloc:
 		// everything stored into the local, its fields or elements
 		s.allocStores(x, opt, depth, map[ssa.Value]bool{})
@@ -173,7 +196,7 @@ func (s *Slice) allocStores(a ssa.Value, opt SliceOpt, depth int, seen map[ssa.V
 		case *ssa.Call:
 			// the local's address is passed to a callee (decoder idiom): the
 			// local then depends on the call's other arguments
-			if opt.CallArgs {
+			if opt.CallArgs && !opt.NoAddrCallArgs {
 				s.Vals[y] = true
 				for _, arg := range y.Call.Args {
 					if arg != a {
